@@ -114,13 +114,38 @@ func runHistory(r *ev.Run, root string, h int) {
 		hs.plains = append(hs.plains, p)
 		hs.sc.addPlain(pi, p.Ref, p.Data, 0, 0)
 		nb, nm := in.blobs.nEvents(), in.meta.nEvents()
+		// transient fault: the write of this receive's meta blob (or of its ciphertext) fails once
+		// without effect; the client retries.  Whatever is acknowledged must survive the index loss.
+		var flaky *lowStore
+		if launchedNow, termNow := in.compactionCounts(); launchedNow == termNow && !in.plan.Frozen() && rng.Intn(12) == 0 {
+			flaky = in.meta
+			if rng.Intn(3) == 0 {
+				flaky = in.blobs
+			}
+			flaky.failOnce.Store(1)
+		}
 		err := in.receive(&hs.plains[pi])
+		if flaky != nil {
+			fired := !flaky.failOnce.CompareAndSwap(1, 0)
+			switch {
+			case fired && err != nil && !in.plan.Frozen():
+				r.Note("history_events", "transient-"+flaky.name+"-write-failure/receive-failed-then-retried")
+				err = in.receive(&hs.plains[pi])
+				if err != nil && !in.plan.Frozen() {
+					r.Note("history_events", "retry-after-transient-failure-failed")
+				} else if err == nil {
+					r.Count("retries_acked_after_transient_failure", 1)
+				}
+			case fired && err == nil:
+				r.Note("history_events", "transient-"+flaky.name+"-write-failure/receive-acknowledged-anyway")
+			}
+		}
 		if err == nil {
 			hs.acked[p.Ref] = pi
 			hs.ackSeq = append(hs.ackSeq, pi)
 		} else {
 			hs.unsure[p.Ref] = pi + 1
-			if !in.plan.Frozen() {
+			if !in.plan.Frozen() && flaky == nil {
 				r.Inconclusive(fmt.Sprintf("%s: receive %d failed without any fault: %v", id, i, err))
 				return
 			}
